@@ -80,13 +80,13 @@ def cl_valid(m, kd=None):
 
 def cl_measure(G, M):
     """MEASURE: total measure equals the expected one."""
-    return [] if abs(G["meas"] - M["meas"]) <= TOL * max(1., abs(M["meas"])) else ["MEASURE: got %.15g, expected %.15g" % (G["meas"], M["meas"])]
+    return [] if abs(G["meas"] - M["meas"]) <= TOL * abs(M["meas"]) else ["MEASURE: got %.15g, expected %.15g" % (G["meas"], M["meas"])]
 
 
 def cl_cells(G, M):
     """CELLS: same multiset of cells as coordinate sets (shared-vertex structure preserved)."""
-    return [] if G["cells"] == M["cells"] else ["CELLS: %d cells differ from the expected coordinate sets (got %d, expected %d cells)"
-                                                 % (sum(((G["cells"] - M["cells"]) + (M["cells"] - G["cells"])).values()), sum(G["cells"].values()), sum(M["cells"].values()))]
+    bad = (G["cells"] - M["cells"]) + (M["cells"] - G["cells"])
+    return ["CELLS: %d unexpected / missing coordinate sets (got %d cells, expected %d)" % (sum(bad.values()), sum(G["cells"].values()), sum(M["cells"].values()))] if bad else []
 
 
 def cl_range(m):
@@ -226,6 +226,14 @@ def cl_partition(corners, kids):
     return []
 
 
+def cl_conforming(par, ch, d):
+    """CONFORMING: a child facet owned by a single simplex lies in no face common to two parent cells, i.e. parents that shared a facet
+    still share it piecewise (same shared-vertex structure; the split of a conforming mesh is a conforming mesh)."""
+    cnt = Counter(F for c in ch for F in map(frozenset, itertools.combinations(sorted(c), d)))
+    bad = [F for F, c in cnt.items() if c == 1 and sum(F <= P for P in par) > 1]
+    return ["CONFORMING: %d simplex facets inside faces shared by two parent cells are not shared by the simplices on both sides" % len(bad)] if bad else []
+
+
 def op_split(m, M, rng, S, style=None):
     """SPLIT: every simplex lies in exactly one parent cell (its vertices are parent vertices, or the parent's centroid for style 'x'),
     the children of a parent add up to its measure and partition it, no other vertices appear, the returned elementwise map names the parent."""
@@ -249,6 +257,7 @@ def op_split(m, M, rng, S, style=None):
         f.append("SPLIT: the children of a cell do not add up to its measure")
     for k in range(nt):
         f += cl_partition(np.array(sorted(allowed[k])).T, [r.p[:, r.t[:, j]] for j in np.nonzero(parent == k)[0]]) if not f else []
+    f += cl_conforming(par, ch, m.p.shape[0]) if not f else []
     if set(P) != set(pts(m.p)) | {P[i] for i in cix if i >= 0} or (style == "x" and (cix < 0).any()):
         f.append("SPLIT: vertex set is not the old vertices%s" % (" plus cell centroids" if style == "x" else ""))
     if X is not None and not np.array_equal(np.asarray(X), parent):
@@ -331,11 +340,11 @@ AFTER = {("quad", "split"): "tri", ("quad", "split_x"): "tri", ("hex", "split"):
 
 
 def tagged(m, rng):
-    """tag set: unsorted / overlapping / empty / full subdomains; boundary facets, an unsorted mix of interior and boundary facets, an oriented interface."""
+    """tag set: unsorted / overlapping / empty / full subdomains; boundary facets, unsorted mix of interior and boundary facets, empty tag, oriented interface."""
     nt, nf = m.t.shape[1], m.facets.shape[1]
     A = rng.permutation(nt)[:rng.randint(1, nt + 1)]
     sub = {"A": A, "B": np.sort(rng.permutation(nt)[:rng.randint(0, nt + 1)]), "all": np.arange(nt), "none": np.zeros(0, dtype=np.int32)}
-    bnd = {"bnd": m.boundary_facets(), "mix": rng.permutation(nf)[:rng.randint(1, nf + 1)]}
+    bnd = {"bnd": m.boundary_facets(), "mix": rng.permutation(nf)[:rng.randint(1, nf + 1)], "none": np.zeros(0, dtype=np.int32)}
     if len(A) < nt:
         bnd["iface"] = m.facets_around(np.sort(A))
     return m.with_subdomains(sub).with_boundaries(bnd)
@@ -378,7 +387,7 @@ def run_chain(m, chain, cs):
         except Exception as e:
             r, f = None, ["raised %s: %s" % (type(e).__name__, e)]
         if f:
-            return name + "/" + f[0].split(":")[0], "step %d (%s on %s, %d cells): %s" % (step + 1, name, type(m).__name__, m.t.shape[1], " | ".join(f[:3]))
+            return "%s(%s)/%s" % (name, type(m).__name__, f[0].split(":")[0]), "step %d (%s on %s, %d cells): %s" % (step + 1, name, type(m).__name__, m.t.shape[1], " | ".join(f[:3]))
         if r is None:
             break
         for key, tags in (("sub", r.subdomains), ("bnd", r.boundaries)):       # only names that were carried over stay in the model
@@ -406,7 +415,7 @@ def run(payload):
     # report one failure per (operation, clause) group before the second of any group, so that the 20 reported ones are diverse
     failures = [g[i] for i in range(max(map(len, groups.values()), default=0)) for g in groups.values() if i < len(g)]
     bound = (Z.describe(tier) + "; every mesh tagged with a seeded tag set (subdomains: unsorted, overlapping, full, empty; boundaries: boundary facets, unsorted "
-             "mix of interior+boundary facets, oriented interface); chains of <= 3 operations from {restrict (with mapping), remove_elements, restrict by name, translated, "
+             "mix of interior+boundary facets, empty, oriented interface); chains of <= 3 operations from {restrict (with mapping), remove_elements, restrict by name, translated, "
              "scaled, mirrored (axis / oblique), morphed, remove_unused_nodes, remove_duplicate_nodes, oriented, to_meshtri (both styles), to_meshtet, + (join with a "
              "translated / mirrored copy), @, * (extrusion), trace}: first operation = restrict to EVERY non-empty cell subset (meshes with <= 4 cells, each followed by every "
              "applicable operation) or to the full set + 9 seeded random subsets (larger meshes, two follow-ups each), remove_elements of each such subset, and every "
